@@ -134,6 +134,10 @@ func (t Time) IsZero() bool {
 // JS returns the time as a JavaScript date. The result is undefined if the
 // year of t is not in the range [-999999, 999999].
 func (t Time) JS() native.JS {
+	if _, offset := t.t.Zone(); offset%60 != 0 {
+		// The offset of a JavaScript date string cannot have seconds.
+		return Time{t.t.UTC()}.JS()
+	}
 	y := t.t.Year()
 	ms := int64(t.t.Nanosecond()) / int64(time.Millisecond)
 	_, offset := t.t.Zone()
